@@ -34,7 +34,12 @@ async fn run_async(run: usize, steps: Vec<Value>, log: &mut Vec<Value>) {
             "write" if up => {
                 let k = st["k"].as_str().unwrap();
                 n += 1;
-                let _ = node.execute(argv_cmd(&["SET", k, &format!("v{n}")])).await;
+                // a delete is a stamped local write like any other (it leaves a tombstone with the stamp)
+                if st.get("del").and_then(|d| d.as_bool()).unwrap_or(false) {
+                    let _ = node.execute(argv_cmd(&["DEL", k])).await;
+                } else {
+                    let _ = node.execute(argv_cmd(&["SET", k, &format!("v{n}")])).await;
+                }
                 let ds = node.collect_pending_deltas().await;
                 let mine: Vec<&ReplicationDelta> = ds.iter().filter(|d| d.key == k).collect();
                 match mine.last() {
@@ -42,6 +47,8 @@ async fn run_async(run: usize, steps: Vec<Value>, log: &mut Vec<Value>) {
                         ev["st"] = json!([d.value.timestamp.time, d.value.timestamp.replica_id.0]);
                         deltas.push((*d).clone());
                     }
+                    // DEL of a key the node does not hold writes nothing: not a clock event
+                    None if st.get("del").and_then(|d| d.as_bool()).unwrap_or(false) => ev["skipped"] = json!(true),
                     None => ev["st"] = json!([0, 0]),
                 }
             }
@@ -54,6 +61,9 @@ async fn run_async(run: usize, steps: Vec<Value>, log: &mut Vec<Value>) {
             }
             "checkpoint" if up => {
                 ckpt = Some(node.snapshot_state().await);
+                if st.get("trim").and_then(|d| d.as_bool()).unwrap_or(false) {
+                    deltas.clear(); // the checkpoint subsumes every older segment and WAL file
+                }
             }
             "crash" if up => {
                 node = new_node();
@@ -78,12 +88,12 @@ fn random_steps(rng: &mut impl Rng) -> Vec<Value> {
     for _ in 0..rng.gen_range(4..=14) {
         let k = keys[rng.gen_range(0..keys.len())];
         let s = match rng.gen_range(0..10) {
-            0..=3 if up => json!({"a": "write", "k": k, "place": if rng.gen_bool(0.5) { "seg" } else { "wal" }}),
+            0..=3 if up => json!({"a": "write", "k": k, "place": if rng.gen_bool(0.5) { "seg" } else { "wal" }, "del": rng.gen_range(0..4) == 0}),
             4..=5 if up => {
                 let t = [1u64, 2, 3, 7, 50, 1000][rng.gen_range(0..6)];
                 json!({"a": "remote", "k": k, "t": t})
             }
-            6 if up => json!({"a": "checkpoint"}),
+            6 if up => json!({"a": "checkpoint", "trim": rng.gen_bool(0.5)}),
             7 if up => {
                 up = false;
                 json!({"a": "crash"})
